@@ -271,6 +271,40 @@ func buildUpload(c caseA, path string, query []s3c.KV, payload []byte) (r *s3c.R
 			}
 		case "chunk-sig":
 			mutField(s3c.FChunkSig)
+		case "chunk-sig-empty":
+			// the signature of one chunk, or of every chunk, is not wrong but absent
+			fs := fieldsOf(s3c.FChunkSig)
+			if len(fs) > 0 {
+				nb := append([]byte(nil), b...)
+				if ds := fieldsOf(s3c.FData); (c.Arg/4)%2 == 1 && len(ds) > 0 && ds[0].End > ds[0].Start {
+					// ... and the data it vouched for is not what was signed
+					nb[ds[0].Start] ^= 0x01
+				}
+				for i := len(fs) - 1; i >= 0; i-- {
+					if c.Arg%2 == 0 || i == (c.Arg/2)%len(fs) {
+						nb = append(nb[:fs[i].Start], nb[fs[i].End:]...)
+					}
+				}
+				b, effective = nb, true
+			}
+		case "trailer-name":
+			// the trailer announced in x-amz-trailer does not arrive: the line carries another name (and the data is
+			// not what the announced checksum would have vouched for)
+			name := "x-amz-checksum-" + c.Algo
+			other := name + "x"
+			switch c.Arg % 3 {
+			case 0:
+				other = name[:len(name)-1] + string(name[len(name)-1]^0x01)
+			case 1:
+				other = "x-amz-checksum-" + map[string]string{"crc32": "crc32c", "crc32c": "crc32", "sha1": "sha256", "sha256": "sha1", "crc64nvme": "crc32"}[c.Algo]
+			}
+			if i := bytes.LastIndex(b, []byte(name+":")); i >= 0 {
+				nb := append(append(append([]byte(nil), b[:i]...), []byte(other)...), b[i+len(name):]...)
+				if ds := fieldsOf(s3c.FData); len(ds) > 0 && ds[0].End > ds[0].Start {
+					nb[ds[0].Start] ^= 0x01
+				}
+				b, effective = nb, true
+			}
 		case "trailer-sig":
 			mutField(s3c.FTrailerSig)
 		case "trailer-checksum":
@@ -479,7 +513,7 @@ func execA(c caseA) (v verdict, err error) {
 }
 
 var corruptions = []string{"none", "none", "md5", "sha256", "checksum-header", "trailer-checksum", "payload-flip", "chunk-sig", "trailer-sig",
-	"decoded-larger", "decoded-smaller", "short-body", "truncate-chunk", "extra-bytes", "chunk-size-larger", "type-unsupported"}
+	"decoded-larger", "decoded-smaller", "short-body", "truncate-chunk", "extra-bytes", "chunk-size-larger", "type-unsupported", "chunk-sig-empty", "trailer-name"}
 
 func genCase(t *rapid.T) caseA {
 	var c caseA
@@ -515,8 +549,10 @@ func genCase(t *rapid.T) caseA {
 			ok = (c.Mode == "plain" || chunked) && c.Size > 0
 		case "trailer-checksum":
 			ok = c.Mode == "chunked-signed-trailer" || c.Mode == "chunked-unsigned-trailer"
-		case "chunk-sig":
+		case "chunk-sig", "chunk-sig-empty":
 			ok = c.Mode == "chunked-signed" || c.Mode == "chunked-signed-trailer"
+		case "trailer-name":
+			ok = c.Mode == "chunked-signed-trailer" || c.Mode == "chunked-unsigned-trailer"
 		case "trailer-sig":
 			ok = c.Mode == "chunked-signed-trailer"
 		case "decoded-larger", "truncate-chunk", "extra-bytes", "type-unsupported":
